@@ -283,6 +283,7 @@ class Model:
         self.preds = preds or {}
         self.opaque = opaque or {}
         self.default = default
+        self.opaque_fill = None     # optional callable (world, sentence) -> value for unseen opaque sentences
         self.t = tables(logic)
 
     # -- serialisation
@@ -340,6 +341,9 @@ class Model:
             try:
                 return self.opaque[w][s]
             except KeyError:
+                if self.opaque_fill is not None:
+                    v = self.opaque.setdefault(w, {})[s] = self.opaque_fill(w, s)
+                    return v
                 return self._dflt(('opaque', w, s))
         t = s[0]
         if t == 'A':
